@@ -15,7 +15,7 @@ TECH = {
     "C04": ("Hypothesis metamorphic testing: dense(transform(x)) == dense(x) plus canonical-form predicates; factorised mode products vs. dense reference",
             "degenerate classes (zero / zero-mean columns, negative and zero weights, rank 1) forced by the generators"),
     "C05": ("Hypothesis: svd_interface vs. numpy.linalg.svd reference spectrum, orthonormality, optimal-error identity, sign rule, non-negativity",
-            "shapes up to 6x6, all methods, n_eigenvecs past max(shape), rank-deficient and repeated spectra"),
+            "shapes up to 6x6 (geometric spectra up to 12x10), all methods, n_eigenvecs past max(shape), rank-deficient and repeated spectra, integer and complex128 input"),
     "C06": ("Hypothesis: every reported error recomputed from scratch from the iterate (callback copies / prefix runs) with independent dense references",
             "orders 2-4, ranks 1-3, option sets incl. normalisation, line search, early and cap exits"),
     "C07": ("Hypothesis: objective recomputed by the harness from each iterate is non-increasing sweep to sweep; ill-conditioned cases discarded by a counted rule",
@@ -23,7 +23,7 @@ TECH = {
     "C08": ("Hypothesis: structural / canonical-form predicates on every decomposition output over rank specs, stop paths and iteration caps",
             "orders 2-5; both stopping paths forced by tolerance choice"),
     "C09": ("Hypothesis: decomposition error vs. bounds computed from numpy.linalg.svd of the (sequential) unfoldings; exactness at sufficient rank",
-            "orders 2-5, sides 1-4, rank vectors from 1 past the mode sizes"),
+            "orders 2-5, sides 1-4, rank vectors from 1 past the mode sizes; complex128 tensors at sufficient rank"),
     "C10": ("Hypothesis: entrywise sign / finiteness predicate on the declared non-negative modes of every non-negative decomposition",
             "signed, sparse, all-negative and integer data; iteration caps 0..6"),
     "C11": ("Hypothesis: column-wise feasibility predicates for the 8 hard constraints over scalar / list / dict specifications; double constraints must raise",
